@@ -72,6 +72,12 @@ def cases(tier, seed):
         for sp in (0.25, 0.5, 1.0, 1.75, [0.5, 1.25], 9.0):
             for pixel in (False, True):
                 yield dict(kind="grid_inside", region=reg, spacing=sp, pixel=pixel)
+    # non-dyadic regions with many nodes (added after seed C13-1: a node one ulp past the east bound)
+    for reg in ([0.0, 0.7, -3.3, 0.0], [0.0, 5.0, 0.0, 10.0], [1.1, 7.3, -0.1, 0.2]):
+        for a in range(2, 161):
+            for pixel in (False, True):
+                yield dict(kind="grid_inside", region=reg, shape=[a, (a * 7) % 159 + 2], pixel=pixel)
+                yield dict(kind="grid_inside", region=reg, spacing=[(reg[3] - reg[2]) / a, (reg[1] - reg[0]) / ((a * 7) % 159 + 2)], pixel=pixel)
     for reg in [[0.0, 4.0, 0.0, 2.0], [-2.0, 2.0, -1.0, 1.0], [-8.0, 8.0, -4.0, 4.0], [1.0, 3.0, -5.0, -1.0], [0.0, 0.0, 1.0, 2.0]]:
         for proj in ("affine", "flip", "rot", "exp", "square", "negsq", "cube_shift"):
             yield dict(kind="project_region", region=reg, proj=proj)
